@@ -26,7 +26,7 @@ def run(ctx):
                        "only reading compatible with C01; traces with absorption skip the Minimal clause"]
     quick = ctx.quick
     cc.model_check(ctx, "c27_j1", N=4, T=2 if quick else 3, iters=[0, 1] if quick else [0, 1, 2], eps=[0, 1],
-                   max_edges=4 if quick else 5)
+                   max_edges=4)
     if not quick:
         cc.model_check(ctx, "c27_j1b", N=5, T=2, iters=[0], eps=[0, 1, 2], max_edges=5, fixed_mode="leaves")
     insts = cc.generate(ctx, "c27_j2", N=3 if quick else 4, T=2, iters=[0, 1], eps=[0, 1, 2],
